@@ -484,6 +484,7 @@ def pRetract (id : Id) (expect : Option Nat) (s : Store) (tx : Tx) : PS :=
   | .ok (tx1, x) =>
       if id.kind ≠ .assertion then .fail s tx1 .invalid
       else if (match expect with | some v => x.row.val != v | none => false) then .fail s tx1 .precond
+      else if x.isNew then .fail s tx1 .invalid   -- `require_representation`, see `notYetWritten`
       else if x.row.val = 1 then .ok s tx1
       else .ok s (markChanged tx1 id { x with row := { x.row with val := 1 } } .retract)
 
@@ -548,6 +549,12 @@ def pExpectStatus (id : Id) (expect : Option Nat) (s : Store) (tx : Tx) : PS :=
   | some v => pCheck2 id id (statusGuard id v) s tx
 
 def noGuard (_ : Staged) : Option Err := none
+/-- `require_representation` → `may_represent_assertion`: the Principal must have *written* the
+Assertion (`origin.principal_id`, stamped when a row is written) or be bound to its actor. A row this
+very statement stages for creation has no origin yet, so RETRACT / SUPERSEDE of an Assertion created by
+an earlier clause of the same block is refused (`RetractionNotAuthorized`); a shell loaded before its
+CREATE clause ran carries the origin `insert_shell` stamped and passes. -/
+def notYetWritten (x : Staged) : Option Err := if x.isNew then some .invalid else none
 def setStatus (v : Nat) (r : Row) : Row := { r with val := v }
 def setRet (v : Nat) (r : Row) : Row := { r with ret := v }
 /-- `if !row.supersedes.contains(old) { push }` -/
@@ -645,7 +652,7 @@ def applyClause (c : Clause) (s : Store) (tx : Tx) : PS :=
           -- `superseded` and changed unconditionally; new must be an Assertion about the same
           -- Proposition and gains the back link once
           ((((((pGuard (old == new) .invalid s tx).andThen (pExpectStatus old expect)).andThen (pLoad old)).andThen (pLoad new)).andThen
-            (pEdit old (some .assertion) noGuard (setStatus 3) true .supersede)).andThen
+            (pEdit old (some .assertion) notYetWritten (setStatus 3) true .supersede)).andThen
             (pCheck2 new old (sameAbout new))).andThen
             (pEdit new (some .assertion) noGuard (addLink old.n) false .supersede)
   | .correct t by_ =>
